@@ -28,7 +28,7 @@ func main() {
 	sup.Main(sup.Prop{
 		ID:    "C07",
 		Level: "exploration",
-		Rule:  "generated cache histories (initial remote tree of 0–6 nodes; writes, stream writes, mkdirs, removes, copies, reads, Commits; path spellings; child views of the cache) are executed on fscache.Cache over a memory or disk remote and on the tree model initialised with the remote's tree; after every operation the read-type result and the whole tree observable through the cache (ReadDir+Lstat+IsExist/IsFile/IsDir+ReadFile on every node) are compared with the model. clean stratum: the generator never issues an operation that matches a listed finding's trigger (removes only of never-committed buffered files, copies only of files onto absent destinations, no operation the model rejects) – every divergence is a violation; trigger stratum: unrestricted histories, a divergence must satisfy a listed finding's class predicate (evaluated on the model's bookkeeping) or it is a violation; faultycommit: clean histories over a fault-injecting remote – half of the Commits meet one remote failure; after a failed Commit the view must still show every pending operation; witness: the listed findings' minimal histories replayed verbatim. distinct = distinct operation sequences; non-trivial = ≥1 successful mutation through the cache",
+		Rule:  "generated cache histories (initial remote tree of 0–6 nodes; writes, stream writes, mkdirs, removes, copies, reads, Commits; path spellings; child views of the cache) are executed on fscache.Cache over a memory or disk remote and on the tree model initialised with the remote's tree; after every operation the read-type result and the whole tree observable through the cache (ReadDir+Lstat+IsExist/IsFile/IsDir+ReadFile on every node) are compared with the model. clean stratum: the generator never issues an operation that matches a listed finding's trigger (removes only of never-committed buffered files, copies only of files onto absent destinations, no operation the model rejects) – every divergence is a violation; trigger stratum: unrestricted histories, a divergence must satisfy a listed finding's class predicate (evaluated on the model's bookkeeping) or it is a violation; faultycommit: clean histories over a fault-injecting remote – half of the Commits meet one remote failure; after a failed Commit the view must still show every pending operation; a third of the file copies meets a remote that refuses to open the source – the copy fails and, like every unsuccessful operation, must leave the view as it was; witness: the listed findings' minimal histories replayed verbatim. distinct = distinct operation sequences; non-trivial = ≥1 successful mutation through the cache",
 		Assumptions: []string{
 			"a cache operation that reports an error is not applied to the model (it must then have no visible effect)",
 			"histories in which the cache accepts an operation the tree model rejects are ambiguous and stop without verdict",
@@ -70,6 +70,7 @@ func main() {
 					defer run.Cleanup()
 					d := cachemon.Drive(run, rng, nops, b.Kind != "trigger", idx%2 == 0)
 					r.AddObs("failed_commits_followed_by_view_check", run.FailedCommits)
+					r.AddObs("file_copies_whose_remote_source_refused_to_open", int64(run.SourceOpenFaults))
 					if d != nil && d.Prop == "C07" {
 						cachemon.Report(r, run, d, b.Kind, b.Kind == "trigger")
 					}
@@ -94,7 +95,7 @@ func main() {
 			}
 		},
 		Finish: func(t *sup.Totals) string {
-			if t.Obs["histories_clean"] == 0 || t.Obs["histories_trigger"] == 0 || t.Obs["whole_view_comparisons"] < 1000 || t.Obs["failed_commits_followed_by_view_check"] == 0 {
+			if t.Obs["histories_clean"] == 0 || t.Obs["histories_trigger"] == 0 || t.Obs["whole_view_comparisons"] < 1000 || t.Obs["failed_commits_followed_by_view_check"] == 0 || t.Obs["file_copies_whose_remote_source_refused_to_open"] == 0 {
 				return "a stratum observed nothing"
 			}
 			return ""
